@@ -5,6 +5,7 @@ package main
 import (
 	"fmt"
 	"go/types"
+	"os"
 	"strings"
 
 	"golang.org/x/tools/go/ssa"
@@ -76,6 +77,8 @@ func (f *Frame) execCall(st *State, in ssa.Instruction, c *ssa.CallCommon, res s
 	var out *State
 	var vals []Value
 	switch {
+	case vc.callAsFor(in) != nil:
+		out, vals = f.callModel(st, in, vc.callAsFor(in), c)
 	case c.IsInvoke():
 		recv := f.val(c.Value)
 		out, vals = f.callInvoke(st, in, c, recv, args)
@@ -422,6 +425,9 @@ func (f *Frame) callFunction(st *State, in ssa.Instruction, fn *ssa.Function, bi
 		return sp.st, sp.vals
 	}
 	ct := vc.p.contractFor(fn)
+	if os.Getenv("GOVC_DEBUG") != "" {
+		fmt.Fprintf(os.Stderr, "call %s key=%s short=%s synthetic=%q contract=%v\n", fn.String(), vc.p.funcKey(fn), shortFuncName(fn), fn.Synthetic, ct != nil)
+	}
 	if ct != nil && !(ct.Inline && !f.inStack(fn)) {
 		if fn.Signature.Recv() != nil && isPointer(fn.Signature.Recv().Type()) && len(args) > 0 && vc.p.inModule(fn) {
 			vc.oblige(st, "nil", vc.anchorOf(in), Not(Eq(args[0].T, IntLit(0))), nil, "nil receiver for "+shortFuncName(fn), in.Pos())
@@ -577,6 +583,8 @@ func (f *Frame) applyContract(st *State, in ssa.Instruction, ct *Contract, sig *
 			guard := Not(Or(mem...))
 			if ks == SInt {
 				guard = And(guard, Le(Base(r), pre.top))
+			} else if ks == SIface {
+				guard = And(guard, Le(Base(IfVal(r)), pre.top))
 			}
 			vc.assumeIn(st, Term{fmt.Sprintf("(forall ((r %s)) (! (=> %s (= (select %s r) (select %s r))) :pattern ((select %s r))))", ks, guard.S, nw.S, old.S, nw.S), SBool})
 			st.SetHeap(hn, nw)
@@ -585,6 +593,10 @@ func (f *Frame) applyContract(st *State, in ssa.Instruction, ct *Contract, sig *
 	if !ct.Pure || ct.Allocates {
 		ntop := vc.freshConst("top", SInt)
 		vc.assumeIn(st, Le(st.top, ntop))
+		if ct.Kind == "trusted" || (ct.Kind == "iface" && ct.Trusted) {
+			// library code never allocates objects of this module's (unexported) struct types
+			vc.assumeIn(st, Term{fmt.Sprintf("(forall ((r Int)) (! (=> (and (< %s (base r)) (<= (base r) %s)) (= (rtype r) (- 1))) :pattern ((rtype r))))", st.top.S, ntop.S), SBool})
+		}
 		st.top = ntop
 	}
 	// results
@@ -658,6 +670,8 @@ func (vc *VC) checkModSubset(st *State, ms []modLoc, in ssa.Instruction, callee 
 	var alts []Term
 	if ks == SInt {
 		alts = append(alts, App(SBool, ">", Base(r), vc.entry.top))
+	} else if ks == SIface {
+		alts = append(alts, App(SBool, ">", Base(IfVal(r)), vc.entry.top))
 	}
 	for _, m := range vc.modTop {
 		if m.heap == heap {
@@ -752,4 +766,71 @@ func (f *Frame) applyContractFV(st *State, in ssa.Instruction, ft *Contract, c *
 	}
 	nsig := types.NewSignatureType(nil, nil, nil, types.NewTuple(vars...), sig.Results(), false)
 	return f.applyContract(st, in, ft, nsig, nil, all, "functype "+typeKey(c.Value.Type()), nil)
+}
+
+func (vc *VC) callAsFor(in ssa.Instruction) *CallAs {
+	if vc.c == nil || len(vc.c.CallAs) == 0 {
+		return nil
+	}
+	ci, ok := in.(ssa.CallInstruction)
+	if !ok {
+		return nil
+	}
+	name := calleeName(ci.Common())
+	a := vc.anchorOf(in)
+	ord := 0
+	if j := strings.LastIndex(a, "#"); j >= 0 {
+		fmt.Sscanf(a[j+1:], "%d", &ord)
+	}
+	for _, ca := range vc.c.CallAs {
+		if ca.Anchor.Callee == name && ca.Anchor.Ordinal == ord {
+			return ca
+		}
+	}
+	return nil
+}
+
+// callModel applies a named model contract at a call site (callback models).
+func (f *Frame) callModel(st *State, in ssa.Instruction, ca *CallAs, c *ssa.CallCommon) (*State, []Value) {
+	vc := f.vc
+	m := vc.p.cs.Funcs["model::"+ca.Model]
+	if m == nil {
+		vc.specErrors = append(vc.specErrors, "unknown model "+ca.Model)
+		return f.havocCall(st, in, c.Signature(), calleeName(c))
+	}
+	pkg := vc.p.typesPkg(m.PkgPath)
+	var params, results []*types.Var
+	for _, q := range m.ModelParams {
+		t, err := vc.p.ResolveType(q.T, pkg)
+		if err != nil {
+			vc.specErrors = append(vc.specErrors, "model "+ca.Model+": "+err.Error())
+			return f.havocCall(st, in, c.Signature(), calleeName(c))
+		}
+		params = append(params, types.NewVar(0, nil, q.Name, t))
+	}
+	for _, q := range m.ModelRes {
+		t, err := vc.p.ResolveType(q.T, pkg)
+		if err != nil {
+			vc.specErrors = append(vc.specErrors, "model "+ca.Model+": "+err.Error())
+			return f.havocCall(st, in, c.Signature(), calleeName(c))
+		}
+		results = append(results, types.NewVar(0, nil, q.Name, t))
+	}
+	if len(results) != c.Signature().Results().Len() || len(ca.Args) != len(params) {
+		vc.specErrors = append(vc.specErrors, "model "+ca.Model+": arity mismatch at "+ca.Src)
+		return f.havocCall(st, in, c.Signature(), calleeName(c))
+	}
+	sc := vc.entryScope()
+	sc.st, sc.frame = st, f
+	var args []Value
+	for _, a := range ca.Args {
+		t, _, ok := vc.trExpr(sc, a, "call-as argument")
+		if !ok {
+			return f.havocCall(st, in, c.Signature(), calleeName(c))
+		}
+		args = append(args, Value{T: t})
+	}
+	sig := types.NewSignatureType(nil, nil, nil, types.NewTuple(params...), types.NewTuple(results...), false)
+	vc.trustedUsed["model "+ca.Model+" at "+vc.funcName()+" "+ca.Src] = true
+	return f.applyContract(st, in, m, sig, nil, args, "model "+ca.Model, nil)
 }
